@@ -261,8 +261,9 @@ func main() {
 					o := outcome{job: j}
 					o.res = r.execute(w, st.p, st.base.Steps[0].Tree, j.spec, false)
 					o.execs = len(o.res.Steps)
-					if o.res.Err == nil && !agreesWithBaseline(st, o.res) {
-						// reproducibility of the disagreement: same spec once more
+					if o.res.Err == nil && (j.spec.Plain || !agreesWithBaseline(st, o.res)) {
+						// reproducibility of the disagreement: same spec once more (the plain
+						// generator is always run twice so that counts do not depend on its luck)
 						rr := r.execute(w, st.p, st.base.Steps[0].Tree, j.spec, false)
 						o.rerun = &rr
 						o.execs += len(rr.Steps)
@@ -324,7 +325,15 @@ func main() {
 			for k, s := range o.res.Steps {
 				st.hashes[fmt.Sprintf("%d:%s", o.job.spec.firstStep()+k+1, treeHash(s.Tree))] = true
 			}
+			if o.rerun != nil {
+				for k, s := range o.rerun.Steps {
+					st.hashes[fmt.Sprintf("%d:%s", o.job.spec.firstStep()+k+1, treeHash(s.Tree))] = true
+				}
+			}
 			evaluate(st, r, o)
+			if o.job.spec.Plain && o.rerun != nil && o.rerun.Err == nil {
+				evaluate(st, r, outcome{job: o.job, res: *o.rerun, rerun: &o.res})
+			}
 		}
 		// samples: three histories spread over the phase
 		step := len(outs) / 3
